@@ -464,6 +464,17 @@ template<class MeshT>
 void FileManager::writeStream(std::ostream &_ostream, const MeshT &_mesh) const
 {
     _ostream.imbue(std::locale::classic());
+
+    if (_mesh.needs_garbage_collection()) {
+        // The entity counts and the handles stored in faces, cells and properties
+        // would not match the (undeleted) entities written below.
+        if (verbosity_level_ >= 1) {
+            std::cerr << "Cannot write a mesh with deleted entities, run garbage collection first!" << std::endl;
+        }
+        _ostream.setstate(std::ios::failbit);
+        return;
+    }
+
     // Write header
     _ostream << "OVM ASCII" << std::endl;
 
